@@ -329,7 +329,9 @@ func (fi *FileInfo) checkObjects() error {
 			// cycles, so this stays safe on malformed input.
 			x, endPos, err := fi.doRead(objInfo, fi.makeSafeGetInt(), false)
 			if err != nil {
-				if IsMalformed(err) {
+				// The end of the data in the middle of an object (a
+				// truncated file) only makes this object unusable.
+				if IsMalformed(err) || err == io.EOF || err == io.ErrUnexpectedEOF {
 					objInfo.Broken = true
 					continue
 				}
